@@ -175,8 +175,31 @@ theorem narrow_evalRT :
     rw [elemArr_narrow hF, ih.1]
     exact ⟨rfl, ih.2⟩
   | .split _ true _, _, _, _, h, _ => by simp [HasTyR] at h
-  | .merge _ _ _, _, _, _, h, _ => by simp [HasTyR] at h
-  | .disabled _ _, _, _, _, h, _ => by simp [HasTyR] at h
+  | .merge c false e, t, t', f, h, hs => by
+    obtain ⟨b, m, a⟩ := t
+    obtain ⟨b', m', a'⟩ := t'
+    simp only [HasTyR] at h
+    obtain ⟨hd1, hd2⟩ := hs.dims
+    simp only at hd1 hd2
+    subst hd1; subst hd2
+    cases a with
+    | zero => exact absurd rfl h.1
+    | succ n =>
+      simp only [evalRT, Nat.add_sub_cancel, narrow_arr hF, HasTyR, List.map_map]
+      refine ⟨?_, by simp, h.2.1, (narrow_evalRT e ⟨b, m, n⟩ ⟨b', m, n⟩ f h.2.2 (hs.redim m n)).2⟩
+      congr 1
+      apply List.map_congr_left
+      intro ix _
+      exact (narrow_evalRT e ⟨b, m, n⟩ ⟨b', m, n⟩ (fset f c ix) h.2.2 (hs.redim m n)).1
+  | .merge _ true _, _, _, _, h, _ => by simp [HasTyR] at h
+  | .disabled d v, t, t', f, h, hs => by
+    simp only [HasTyR] at h
+    have ih := narrow_evalRT v t t' f h.2 hs
+    simp only [evalRT, HasTyR]
+    refine ⟨?_, h.1, ih.2⟩
+    split
+    · exact narrow_null hF t'
+    · exact ih.1
   | .fork c ix e, t, t', f, h, hs => by
     simp only [HasTyR] at h
     simp only [evalRT, HasTyR]
@@ -221,6 +244,28 @@ theorem narrow_evalRTMembers (ps : List Param) :
 end
 
 end L1
+
+/-! ## `makeDisabledExp` under the typed evaluation -/
+
+theorem evalRT_mkDisabled (st : StructTable) (F : Nat) (ρ : Store) (f : ForkAssign) (t : Ty) (d inner : RExp) :
+    evalRT st F ρ f t (mkDisabled d inner)
+      = if Martian.Dataflow.isTrue (evalRT st F ρ f ⟨"bool", 0, 0⟩ d) then .null else evalRT st F ρ f t inner := by
+  unfold mkDisabled
+  split
+  · simp [evalRT]
+  · simp only [evalRT, Martian.Dataflow.isTrue, beq_iff_eq]
+    split <;> simp [evalRT]
+  · simp [evalRT]
+
+theorem HasTyR_mkDisabled (st : StructTable) (d inner : RExp) (t : Ty)
+    (hd : HasTyR st ⟨"bool", 0, 0⟩ d) (hi : HasTyR st t inner) : HasTyR st t (mkDisabled d inner) := by
+  unfold mkDisabled
+  split
+  · simp [HasTyR, LitOk]
+  · split
+    · simp [HasTyR, LitOk]
+    · exact hi
+  · simp only [HasTyR]; exact ⟨hd, hi⟩
 
 /-! ## P: static projection commutes with the run-time evaluation -/
 
@@ -365,8 +410,36 @@ theorem proj1_evalRT :
     rw [← elemArr_proj1, ih.1]
     exact ⟨rfl, ih.2⟩
   | .split _ true _, _, _, _, h, _ => by simp [HasTyR] at h
-  | .merge _ _ _, _, _, _, h, _ => by simp [HasTyR] at h
-  | .disabled _ _, _, _, _, h, _ => by simp [HasTyR] at h
+  | .merge c false e, t, fld, f, h, hfo => by
+    obtain ⟨b, m, a⟩ := t
+    simp only [HasTyR] at h
+    cases a with
+    | zero => exact absurd rfl h.1
+    | succ n =>
+      have hns := Proofs.ResolverForks.noSplitOf_bpR c fld e h.2.1
+      rw [projTy1_arr]
+      have ih0 := (proj1_evalRT e ⟨b, m, n⟩ fld f h.2.2 hfo).2
+      have ihf := fun ix => (proj1_evalRT e ⟨b, m, n⟩ fld (fset f c ix) h.2.2 hfo).1
+      generalize Martian.Dataflow.projTy1 st ⟨b, m, n⟩ fld = T at ih0 ihf ⊢
+      obtain ⟨B, M, A⟩ := T
+      simp only [bpR, Proofs.ResolverForks.mkMerge_noSplit c false _ hns, evalRT, Nat.add_sub_cancel, proj1_arr,
+        HasTyR, List.map_map]
+      refine ⟨?_, by simp, hns, ih0⟩
+      congr 1
+      apply List.map_congr_left
+      intro ix _
+      exact ihf ix
+  | .merge _ true _, _, _, _, h, _ => by simp [HasTyR] at h
+  | .disabled d v, t, fld, f, h, hfo => by
+    simp only [HasTyR] at h
+    have ih := proj1_evalRT v t fld f h.2 hfo
+    simp only [bpR]
+    refine ⟨?_, HasTyR_mkDisabled st d _ _ h.1 ih.2⟩
+    rw [evalRT_mkDisabled]
+    simp only [evalRT]
+    split
+    · exact proj1_null _ _
+    · exact ih.1
   | .fork c ix e, t, fld, f, h, hfo => by
     simp only [HasTyR] at h
     simp only [evalRT, bpR, HasTyR]
